@@ -183,6 +183,148 @@ def fold_records(ck, tree, thorough):
     return recs
 
 
+# ---------------------------------------------------------------------------- the time-out table (tcpto.c)
+def tab_hex(tab, real=False):
+    out = b""
+    for ipid, f, w in tab:
+        ip = (bytes([127, 0, 0, 1]) if real and ipid == 1 else bytes([10, 0, 0, ipid])) if ipid else bytes(4)
+        out += ip + bytes([f & 255]) + bytes(3) + int(w).to_bytes(4, "little") + bytes(4)
+    return out.hex() or "-"
+
+
+def tcpto_seam_records(ck, tree, thorough):
+    """every (table, call) of a bounded domain, and long random call sequences on the real 64-slot table, through the real
+    tcpto() / tcpto_err() (harness/tcpto_seam.c); None if tcpto.c no longer has this shape"""
+    try:
+        exe = cc(os.path.join(tree.src, "tcpto_seam"), [os.path.join(HARNESS, "tcpto_seam.c")], cflags=["-I" + tree.src],
+                 libs=[os.path.join(tree.src, l) for l in ("open.a", "lock.a", "str.a", "error.a", "substdio.a")])
+    except Infra as e:
+        log("C09: tcpto seam unavailable (%s)" % str(e)[:200])
+        return None
+    rng = ck.rng
+    slot = [(0, 0, 0)] + [(a, f, w) for a in (1, 2) for f in (0, 1, 2, 3, 10) for w in (1000, 1060)]
+    lines = []
+    for t in itertools.product(slot, repeat=2):
+        if t[0][0] and t[0][0] == t[1][0]:
+            continue
+        h = tab_hex(t)
+        for ip in (1, 2, 3):
+            for nw in (999, 1000, 1060 + 3839, 1060 + 3840, 1000 + 5823, 1000 + 5824, 1060 + 6207, 1060 + 6208):
+                for pid in (0, 31, 7 + 32):
+                    lines.append("L %s %d %d %d" % (h, ip, nw, pid))
+            for was in (0, 1):
+                for fe in (0, 1):
+                    for nw in (1119, 1120, 1179, 1180, 500, 9000):
+                        lines.append("E %s %d %d %d %d" % (h, was, ip, fe, nw))
+    # three slots, seeded
+    for _ in range(4000 if thorough else 800):
+        t = [rng.choice(slot + [(3, rng.choice([1, 2, 5]), rng.choice([900, 1000, 2000]))]) for _ in range(3)]
+        if len(set(x[0] for x in t if x[0])) != len([x for x in t if x[0]]):
+            continue
+        h = tab_hex(t)
+        if rng.random() < 0.4:
+            lines.append("L %s %d %d %d" % (h, rng.choice([1, 2, 3, 4]), rng.choice([1000, 2000, 5000, 7000, 8000]), rng.randrange(1, 70)))
+        else:
+            lines.append("E %s %d %d %d %d" % (h, rng.choice([0, 1]), rng.choice([1, 2, 3, 4]), rng.choice([0, 1]), rng.choice([1000, 1100, 1119, 1120, 1300, 3000])))
+    # the real table size (64 slots): long sequences of attempts (lookup, then report) with an advancing clock and 70 addresses
+    for s_ in range(12 if thorough else 3):
+        lines.append("E %s 0 1 0 1000" % tab_hex([(0, 0, 0)] * 64))
+        nw = 1000
+        for _ in range(1500):
+            nw += rng.choice([0, 1, 30, 119, 120, 121, 600, 4000])
+            ip = rng.randrange(1, 71) if rng.random() < 0.7 else rng.randrange(1, 6)
+            lines.append("l %d %d %d" % (ip, nw, rng.randrange(1, 64)))
+            lines.append("e -1 %d %d %d" % (ip, 1 if rng.random() < 0.6 else 0, nw + rng.choice([0, 0, 2, 60])))
+    work = ck.scratch.sub("tcpto")
+    outf = os.path.join(work, "out.ndjson")
+    r = run([exe, outf], input=("\n".join(lines) + "\n").encode(), cwd=work, timeout=600)
+    if r.returncode != 0:
+        raise Infra("tcpto seam harness failed (%d): %s" % (r.returncode, r.stdout.decode(errors="replace")[-300:]))
+    recs = [json.loads(l) for l in open(outf)]
+    if len(recs) != len(lines):
+        raise Infra("tcpto seam: %d records for %d calls" % (len(recs), len(lines)))
+    return recs
+
+
+def tcpto_binary_records(ck, tree, thorough):
+    """the real qmail-remote against a prepared table under the virtual clock: skipped / connects / is refused / times out"""
+    import socket, subprocess, time
+    recs = []
+    tfile = os.path.join(tree.root, "queue", "lock", "tcpto")
+    clock = ck.scratch.path("tcpto.clock")
+    ep = smtpsrv.Endpoint(50)
+    # a listener whose accept queue is full: connection attempts to it time out (control/timeoutconnect = 2 s)
+    full = socket.socket()
+    full.bind(("127.0.0.1", 0))
+    full.listen(0)
+    fill = []
+    for _ in range(3):
+        c = socket.socket()
+        c.setblocking(False)
+        try:
+            c.connect(full.getsockname())
+        except BlockingIOError:
+            pass
+        fill.append(c)
+    with open(os.path.join(tree.root, "control", "smtproutes"), "w") as f:
+        f.write(ep.route() + "\nclosed.test:127.0.0.1:1\nfull.test:127.0.0.1:%d\n" % full.getsockname()[1])
+    for fn, v in (("timeoutconnect", "2"), ("timeoutremote", "5")):
+        with open(os.path.join(tree.root, "control", fn), "w") as f:
+            f.write(v + "\n")
+    base = 1000000
+    cases = []
+    for f in (0, 1, 2, 5, 10):
+        for age in (0, 100, 119, 120, 3839, 3840, 5000, 6207, 6208, 20000):
+            for outcome in ("ok", "refused", "timeout"):
+                if outcome == "timeout" and not thorough and (f, age) not in ((0, 0), (1, 119), (1, 120), (2, 6208), (2, 3840), (10, 20000), (5, 5000)):
+                    continue          # (each costs the 2 s connect time-out)
+                cases.append(([(1, f, base)], age, outcome))
+    cases += [([(0, 0, 0)], 0, "timeout"), ([(0, 0, 0)], 0, "ok"), ([], 0, "timeout"), ([(2, 2, base), (1, 0, base)], 50, "timeout")]
+
+    def one(case):
+        tab, age, outcome = case
+        with open(tfile, "wb") as f:
+            f.write(bytes.fromhex(tab_hex(tab, real=True)) if tab else b"")
+        os.chmod(tfile, 0o666)
+        with open(clock, "w") as f:
+            f.write("%d\n" % (base + age))
+        host = {"ok": ep.host, "refused": "closed.test", "timeout": "full.test"}[outcome]
+        env = sandbox.shim_env(tree, trace=ck.scratch.path("tcpto.trace"), role="remote", clock=clock)
+        res = {}
+        th = None
+        if outcome == "ok":
+            th = threading.Thread(target=lambda: res.update(obs=smtpsrv.serve(ep, {}, timeout=1.2)))
+            th.start()
+        p = subprocess.Popen([tree.bin("qmail-remote"), host, "s@sender.test", "r1@" + host], stdin=subprocess.PIPE, stdout=subprocess.PIPE, stderr=subprocess.PIPE, env=env, cwd=tree.root)
+        pid = p.pid
+        try:
+            out, _ = p.communicate(b"Subject: t\n\nbody\n", timeout=30)
+        except subprocess.TimeoutExpired:
+            p.kill()
+            out, _ = p.communicate()
+        if th:
+            th.join()
+        connected = bool(res.get("obs", {}).get("cmds")) or (res.get("obs", {}).get("phase_end") not in (None, "noconnect")) if outcome == "ok" else None
+        os.unlink(ck.scratch.path("tcpto.trace")) if os.path.exists(ck.scratch.path("tcpto.trace")) else None
+        data = open(tfile, "rb").read()
+        after = []
+        for i in range(0, len(data) - 15, 16):
+            r_ = data[i:i + 16]
+            after.append([1 if r_[:4] == bytes([127, 0, 0, 1]) else (0 if r_[:4] == bytes(4) else (r_[3] if r_[:3] == bytes([10, 0, 0]) else 255)), r_[4] if r_[4] < 128 else r_[4] - 256, int.from_bytes(r_[8:12], "little")])
+        mrs = [x for x in out.split(b"\0") if x[:1] in (b"K", b"Z", b"D")]
+        noconn = bool(mrs) and b"wasn't able to establish an SMTP connection" in mrs[0]
+        skipped = 1 if (outcome == "ok" and not connected) else (0 if outcome == "ok" else -1)
+        return {"kind": "r", "tab": [list(x) for x in tab], "ip": 1, "now": base + age, "pidbits": pid & 31, "outcome": outcome, "skipped": skipped,
+                "after": after, "mr": chr(mrs[0][0]) if mrs else "?", "noconn": 1 if noconn else 0, "out": out.decode("latin1")[:120]}
+    for c in cases:
+        recs.append(one(c))
+    ep.close()
+    full.close()
+    for c in fill:
+        c.close()
+    return recs
+
+
 def main():
     ap = argparse.ArgumentParser()
     ap.add_argument("--tier", default=os.environ.get("VERIF_TIER", "quick"))
@@ -274,6 +416,52 @@ def main():
             key += ":reply=" + ",".join(j.encode("latin1").hex() for j in r["junk"])
         ck.violation(key, "server script %s%s -> reports %s %s dup=%s exit=%s (%r)" % (s, (" with malformed reply %r" % r["junk"]) if r.get("junk") else "", r["rr"], r["mr"], r["dup"], r["exit"], r["out"][:100]), r)
 
+    # ---- the table of hosts that time out (tcpto.c): design, functions, binary
+    if not a.replay:
+        for name, consts in [("TcptoModel-1slot", " NProc = 2\n Ips = {1, 2}\n NSlots = 1\n Steps = {120, 3900}\n MaxTicks = 3\n Atomic = TRUE\n")] + \
+                            ([("TcptoModel-1slot-4ticks", " NProc = 2\n Ips = {1, 2}\n NSlots = 1\n Steps = {119, 120, 3900, 6208}\n MaxTicks = 4\n Atomic = TRUE\n"),
+                              ("TcptoModel-2slots", " NProc = 2\n Ips = {1, 2, 3}\n NSlots = 2\n Steps = {120, 3900}\n MaxTicks = 3\n Atomic = TRUE\n")] if thorough else []):
+            cfg = ck.scratch.path(name + ".cfg")
+            with open(cfg, "w") as f:
+                f.write("SPECIFICATION Spec\nCONSTANTS\n" + consts + "INVARIANT SkipSound\nINVARIANT UniqueAddress\nINVARIANT FlagRange\n")
+            res = need_ok(tlc("TcptoModel", cfg, workers=NCPU, timeout=2400, heap="12g"), name)
+            ck.add_tlc(name, res)
+            if res.violated:
+                ck.model_violation(name, res)
+        # sanity of the model: without the lock an address can get two slots; skipping does occur
+        for name, consts, inv in (("TcptoModel-nolock", " NProc = 2\n Ips = {1, 2}\n NSlots = 2\n Steps = {120}\n MaxTicks = 1\n Atomic = FALSE\n", "UniqueAddress"),
+                                  ("TcptoModel-skips", " NProc = 2\n Ips = {1, 2}\n NSlots = 1\n Steps = {120, 3900}\n MaxTicks = 3\n Atomic = TRUE\n", "NeverSkips")):
+            cfg = ck.scratch.path(name + ".cfg")
+            with open(cfg, "w") as f:
+                f.write("SPECIFICATION Spec\nCONSTANTS\n" + consts + "INVARIANT " + inv + "\n")
+            res = need_ok(tlc("TcptoModel", cfg, workers=NCPU, timeout=900, heap="8g"), name)
+            if inv not in res.violated:
+                raise Infra("sanity: %s should violate %s" % (name, inv))
+        trecs = tcpto_seam_records(ck, tree, thorough) or []
+        ck.cov["tcpto_seam_available"] = bool(trecs)
+        ck.cov["tcpto_function_calls"] = len(trecs)
+        brecs = tcpto_binary_records(ck, tree, thorough)
+        ck.cov["tcpto_binary_runs"] = len(brecs)
+        ck.cov["tcpto_binary_skips_observed"] = sum(1 for r in brecs if r["skipped"] == 1)
+        allt = trecs + [{k: v for k, v in r.items() if k != "out"} for r in brecs]
+        tfile = ck.scratch.path("tcpto.ndjson")
+        write_ndjson(tfile, allt)
+        tbad, tres = tlc_validate_records("TcptoRec", "TcptoRec.cfg", tfile, len(allt), chunk=500)
+        ck.add_tlc("TcptoRec", tres)
+        ck.cov["traces_validated_against_impl"] += len(allt)
+        for r in allt:
+            ck.count(("tcpto", r["kind"], json.dumps(r["tab"]), r["ip"], r["now"], r.get("was", 0), r.get("flagerr", 0), r.get("outcome", "")), nontrivial=True)
+        ck.sample({"tcpto_call": trecs[5] if trecs else None, "qmail_remote_run": brecs[7]})
+        tbest = {}
+        for idx, why in tbad:
+            r = allt[idx - 1]
+            why = why.strip('"')
+            if why not in tbest or len(json.dumps(r["tab"])) < len(json.dumps(tbest[why]["tab"])):
+                tbest[why] = r
+        for why, r in sorted(tbest.items()):
+            key = "tcpto:%s:%s:tab=%s:ip=%s:now=%s" % (why, r["kind"], json.dumps(r["tab"]).replace(" ", ""), r["ip"], r["now"])
+            ck.violation(key, "table %s, %s -> %s" % (r["tab"], {k: v for k, v in r.items() if k not in ("tab", "after", "kind")}, r["after"]), r)
+
     # ---- relay by qmail-rspawn
     if not a.replay or "s" not in json.load(open(a.replay))["case"]:
         frecs = fold_records(ck, tree, thorough)
@@ -302,7 +490,8 @@ def main():
     ck.cov["rule"] = ("every server script over {expected, other<400, 4xx, 5xx, disconnect, malformed} per phase for 1 recipient (single- and multi-line replies, boundary codes), "
                       "%s for 2%s recipients, stalls at each phase, no listener; relay: every output of <=2 pieces (sampled 3) x exit 0 and 7 outputs x 9 exit/signal kinds; "
                       "non-trivial = the greeting was positive; distinct by (script, first output byte)" % ("all" if thorough else "a seeded sample of 1500", " and 3" if thorough else ""))
-    ck.assumptions += ["reply classes are represented by boundary codes and 15 malformed reply lines; 0xx/1xx/6xx+ codes and per-line differing codes are not generated",
+    ck.assumptions += ["the time-out table is exercised with the clock and the process id supplied by the harness (functions) and under the shim's virtual clock (binary); a connection attempt 'times out' against a listener whose accept queue is full",
+                       "reply classes are represented by boundary codes and 15 malformed reply lines; 0xx/1xx/6xx+ codes and per-line differing codes are not generated",
                        "the possible-duplicate flag is observed as the text 'Possible duplicate' in the message report"]
     ck.finish()
 
